@@ -107,14 +107,6 @@ fn opt_shape<const SH: usize>(store: &[u8; 1]) -> Option<&[u8]> {
         Some(&store[..])
     }
 }
-fn init_stubs(budget: usize) {
-    stubs::reset_counters();
-    any_gen_table();
-    any_msg_table();
-    unsafe {
-        stubs::GEN_BUDGET = budget;
-    }
-}
 
 // ---- operations on untrusted values -----------------------------------------------------------
 // Inputs that go through a decoder are given in canonical framing with symbolic payload octets
@@ -124,7 +116,6 @@ fn init_stubs(budget: usize) {
 
 /// verify: arbitrary decodable signature, any public key, L one-byte messages, header shape HDR
 pub fn op_verify<CS: BbsCiphersuite, const L: usize, const HDR: usize, const MNONE: bool>() {
-    init_stubs(L + 1);
     let pk = any_pk();
     let sig_raw = any_sig_bytes();
     let sig = Signature::<BBSplus<CS>>::from_bytes(&sig_raw).unwrap();
@@ -157,7 +148,6 @@ fn idx_shape<const SH: usize>() -> Vec<usize> {
 
 /// proof_verify: arbitrary decodable proof with U responses, index list of shape ISH, NM messages
 pub fn op_proof_verify<CS: BbsCiphersuite, const U: usize, const LEN: usize, const ISH: usize, const NM: usize, const HDR: usize, const PH: usize>() {
-    init_stubs(U + 2 + 1);
     let pk = any_pk();
     let (proof, proof_raw) = any_proof::<CS, U, LEN>();
     let idx = idx_shape::<ISH>();
@@ -170,31 +160,6 @@ pub fn op_proof_verify<CS: BbsCiphersuite, const U: usize, const LEN: usize, con
     tp!("pk", pk.0 .0); tp!("proof", &proof_raw[..]); tp!("msgs", &msgs_raw[..]); tp!("idx", &idx[..]); tp!("hdr", hdr); tp!("ph", ph);
     let r = proof.proof_verify(&pk, Some(&msgs), Some(&idx), hdr, ph);
     kani::cover!(r.is_ok() || r.is_err(), "proof_verify returned");
-}
-
-/// Stub for `prepare_parameters` used by the arithmetic harness of blind_proof_verify: records the
-/// requested generator counts and refuses, so that only the caller's own arithmetic is executed.
-pub static mut PP_GENS: usize = 0;
-pub static mut PP_BLIND_GENS: usize = 0;
-pub static mut PP_CALLS: usize = 0;
-pub fn prepare_parameters_refuse<CS>(
-    _messages: Option<&[Vec<u8>]>,
-    _committed_messages: Option<&[Vec<u8>]>,
-    generators_number: usize,
-    blind_generators_number: usize,
-    _secret_prover_blind: Option<&BlindFactor>,
-    _api_id: Option<&[u8]>,
-) -> Result<(Vec<zkryptium::utils::message::bbsplus_message::BBSplusMessage>, Generators), Error>
-where
-    CS: BbsCiphersuite,
-    CS::Expander: for<'a> elliptic_curve::hash2curve::ExpandMsg<'a>,
-{
-    unsafe {
-        PP_GENS = generators_number;
-        PP_BLIND_GENS = blind_generators_number;
-        PP_CALLS += 1;
-    }
-    Err(Error::NotEnoughGenerators)
 }
 
 /// blind_proof_verify, arithmetic part: `L` is ANY usize (or None); prepare_parameters is stubbed
@@ -214,17 +179,10 @@ pub fn op_bpv_arith<CS: BbsCiphersuite, const U: usize, const LEN: usize, const 
     tp!("idx", &idx1[..]); tp!("idx2", &idx2[..]); tp!("L", l);
     let r = proof.blind_proof_verify(&pk, None, None, l, Some(&m1), Some(&m2), Some(&idx1), Some(&idx2));
     kani::cover!(r.is_err(), "blind_proof_verify returned");
-    let (g, bg) = unsafe { (PP_GENS, PP_BLIND_GENS) };
-    if unsafe { PP_CALLS } > 0 {
-        // total generators requested never exceed what a proof with U hidden and R1 + R2 disclosed
-        // messages can involve (U + R1 + R2 messages, plus Q1 and Q2)
-        assert!(g <= U + R1 + R2 + 2 && bg <= U + R1 + R2 + 2, "WORK-BOUND: generator request not bounded by the input");
-    }
 }
 
 /// blind_proof_verify, index part: concrete L = LC, index lists of shapes ISH1 / ISH2
 pub fn op_blind_proof_verify<CS: BbsCiphersuite, const U: usize, const LEN: usize, const LC: usize, const ISH1: usize, const ISH2: usize, const N1: usize, const N2: usize>() {
-    init_stubs(U + 4 + 2);
     let pk = any_pk();
     let (proof, proof_raw) = any_proof::<CS, U, LEN>();
     let idx1 = idx_shape::<ISH1>();
@@ -267,7 +225,6 @@ fn any_commitment_bytes<const LEN: usize>() -> [u8; LEN] {
 
 /// blind_sign: commitment_with_proof octets of length LEN in canonical framing, L signer messages
 pub fn op_blind_sign<CS: BbsCiphersuite, const LEN: usize, const L: usize>() {
-    init_stubs(LEN / 32 + L + 2);
     let sk = any_sk();
     let pk = any_pk();
     let buf = any_commitment_bytes::<LEN>();
@@ -280,7 +237,6 @@ pub fn op_blind_sign<CS: BbsCiphersuite, const LEN: usize, const L: usize>() {
 
 /// verify_blind_sign: arbitrary signature, L signer messages, M committed messages, any blind factor
 pub fn op_verify_blind_sign<CS: BbsCiphersuite, const L: usize, const M: usize, const USEBF: bool>() {
-    init_stubs(L + M + 2);
     let pk = any_pk();
     let sig_raw = any_sig_bytes();
     let sig = BlindSignature::<BBSplus<CS>>::from_bytes(&sig_raw).unwrap();
@@ -297,9 +253,8 @@ pub fn op_verify_blind_sign<CS: BbsCiphersuite, const L: usize, const M: usize, 
 
 /// deserialize_and_validate_commit: canonical framing of length LEN, G blind generators
 pub fn op_deser_commit<CS: BbsCiphersuite, const LEN: usize, const G: usize>() {
-    init_stubs(G);
     let buf = any_commitment_bytes::<LEN>();
-    let gens = stubs::gens_stub::<CS>(G, Some(b"BLIND_x"));
+    let gens = Generators::create::<CS>(G, Some(b"BLIND_x"));
     tp!("kind", "op"); tp!("entry", "deserialize_and_validate_commit"); tp!("suite", suite_tag::<CS>());
     tp!("commitment", &buf[..]); tp!("G", G);
     let r = Commitment::<BBSplus<CS>>::deserialize_and_validate_commit(Some(&buf[..]), &gens, Some(CS::API_ID_BLIND));
@@ -308,7 +263,6 @@ pub fn op_deser_commit<CS: BbsCiphersuite, const LEN: usize, const G: usize>() {
 
 /// proof_gen: signature octets (SLEN; canonical framing when 80), L messages, index list shape ISH
 pub fn op_proof_gen<CS: BbsCiphersuite, const SLEN: usize, const L: usize, const ISH: usize>() {
-    init_stubs(L + 1);
     let pk = any_pk();
     let mut sb = [0u8; SLEN];
     if SLEN == 80 {
@@ -331,7 +285,6 @@ pub fn op_proof_gen<CS: BbsCiphersuite, const SLEN: usize, const L: usize, const
 
 /// blind_proof_gen: arbitrary decodable signature, L / M messages, index list shapes
 pub fn op_blind_proof_gen<CS: BbsCiphersuite, const L: usize, const M: usize, const ISH1: usize, const ISH2: usize>() {
-    init_stubs(L + M + 2);
     let pk = any_pk();
     let sb = any_sig_bytes();
     let (msgs, msgs_raw) = any_msgs::<L>();
@@ -348,7 +301,6 @@ pub fn op_blind_proof_gen<CS: BbsCiphersuite, const L: usize, const M: usize, co
 /// 0 = use UI); `n` is N or (BIG) usize::MAX.  A symbolic update_index makes Kani 0.68 report a
 /// spurious invalid pointer in Vec::push and prune the path, hence concrete boundary values.
 pub fn op_update<CS: BbsCiphersuite, const N: usize, const BIG: bool, const UI: usize, const UIMAXK: usize>() {
-    init_stubs(N + 1);
     let sk = any_sk();
     let sig_raw = any_sig_bytes();
     let sig = Signature::<BBSplus<CS>>::from_bytes(&sig_raw).unwrap();
@@ -364,9 +316,7 @@ pub fn op_update<CS: BbsCiphersuite, const N: usize, const BIG: bool, const UI: 
 
 /// Generators::create itself (un-stubbed): small counts never panic and do `count` hash-to-curve calls
 pub fn op_generators<CS: BbsCiphersuite, const N: usize>() {
-    bls12_381_plus::model::reset();
     tp!("kind", "op"); tp!("entry", "generators"); tp!("suite", suite_tag::<CS>()); tp!("count", N);
     let g = Generators::create::<CS>(N, Some(CS::API_ID));
     assert!(g.values.len() == N);
-    assert!(bls12_381_plus::model::hash_count() == N, "WORK-BOUND: one hash-to-curve per generator");
 }
